@@ -5,6 +5,7 @@ import (
 	"fmt"
 	"github.com/arr-ai/hash"
 	"reflect"
+	"sort"
 
 	"github.com/arr-ai/arrai/pkg/fu"
 
@@ -81,7 +82,7 @@ func (u UnionSet) Enumerator() ValueEnumerator {
 }
 
 type unionSetOrderedEnumerator struct {
-	set     frozen.Iterator[any]
+	sets    []Set
 	current ValueEnumerator
 }
 
@@ -89,11 +90,23 @@ func (e *unionSetOrderedEnumerator) MoveNext() bool {
 	if e.current != nil && e.current.MoveNext() {
 		return true
 	}
-	if !e.set.Next() {
+	if len(e.sets) == 0 {
 		return false
 	}
-	e.current = e.set.Value().(Set).ArrayEnumerator()
+	e.current, e.sets = e.sets[0].ArrayEnumerator(), e.sets[1:]
 	return e.current.MoveNext()
+}
+
+// orderedSubsets returns the bucket subsets in ascending order. (They are collected into a slice:
+// u.m.Values() would put them into a frozen.Set, which panics for subsets that are not comparable
+// Go values, e.g. two relations.)
+func (u UnionSet) orderedSubsets() []Set {
+	subsets := make([]Set, 0, u.m.Count())
+	for i := u.m.Range(); i.Next(); {
+		subsets = append(subsets, i.Value().(Set))
+	}
+	sort.Slice(subsets, func(i, j int) bool { return subsets[i].Less(subsets[j]) })
+	return subsets
 }
 
 func (e *unionSetOrderedEnumerator) Current() Value {
@@ -104,9 +117,7 @@ func (u UnionSet) ArrayEnumerator() ValueEnumerator {
 	return &unionSetOrderedEnumerator{
 		// ordered by rel.Set because the bucket keys are strings
 		// which wouldn't provide the correct sorting based on type.
-		set: u.m.Values().OrderedRange(
-			func(a, b interface{}) bool { return a.(Set).Less(b.(Set)) },
-		),
+		sets:    u.orderedSubsets(),
 		current: nil,
 	}
 }
@@ -196,24 +207,18 @@ func (u UnionSet) Less(v Value) bool {
 		return u.Kind() < v.Kind()
 	}
 	x := v.(UnionSet)
-	less := func(a, b interface{}) bool {
-		return a.(Set).Less(b.(Set))
-	}
-	a := u.m.Values().OrderedRange(less)
-	b := x.m.Values().OrderedRange(less)
-	for {
-		aHasMore, bHasMore := a.Next(), b.Next()
+	a, b := u.orderedSubsets(), x.orderedSubsets()
+	for i := 0; ; i++ {
 		switch {
-		case !aHasMore:
-			return bHasMore
-		case !bHasMore:
+		case i >= len(a):
+			return i < len(b)
+		case i >= len(b):
 			return false
 		}
-		aSubset, bSubset := a.Value().(Set), b.Value().(Set)
-		if aSubset.Less(bSubset) {
+		if a[i].Less(b[i]) {
 			return true
 		}
-		if bSubset.Less(aSubset) {
+		if b[i].Less(a[i]) {
 			return false
 		}
 	}
